@@ -16,7 +16,7 @@
 
 use crate::address;
 use crate::error::Error;
-use crate::grin_core::core::amount_to_hr_string;
+use crate::grin_core::core::{amount_to_hr_string, FeeFields};
 use crate::grin_core::libtx::{
 	build,
 	proof::{ProofBuild, ProofBuilder},
@@ -30,7 +30,6 @@ use crate::slate::Slate;
 use crate::types::*;
 use crate::util::OnionV3Address;
 use std::collections::HashMap;
-use std::convert::TryInto;
 
 /// Initialize a transaction on the sender side, returns a corresponding
 /// libwallet transaction slate with the appropriate inputs selected,
@@ -84,7 +83,7 @@ where
 	}
 
 	// Update the fee on the slate so we account for this when building the tx.
-	slate.fee_fields = fee.try_into().unwrap();
+	slate.fee_fields = FeeFields::new(0, fee)?;
 	slate.add_transaction_elements(keychain, &ProofBuilder::new(keychain), elems)?;
 
 	// Create our own private context
@@ -390,6 +389,9 @@ where
 		selection_strategy_is_use_all,
 		&parent_key_id,
 	)?;
+
+	// The payment can only be made if a kernel can carry the fee (at most 2^40 - 1)
+	FeeFields::new(0, fee)?;
 
 	// build transaction skeleton with inputs and change
 	let (parts, change_amounts_derivations) = inputs_and_change(
